@@ -52,6 +52,7 @@ def handle (line : String) : String :=
     | "dec" :: hdr => runDec hdr body
     | "dvb" :: _ => runDvb body
     | "dis" :: _ => runDis body
+    | "spec" :: _ => runSpec body
     | "ren" :: hdr => runRen hdr body
     | "fit" :: hdr => runFit hdr
     | "gen" :: _ => runGen body
